@@ -436,6 +436,39 @@ theorem path_correct_as_built_witness : ¬ Statement_path_correct_as_built := by
 theorem neg_repair_correct (g : Graph) (fw bw : List Term) :
     Correct (nodes g) (negEvalFixed g fw bw) (negRel g fw bw) := negFixed_correct g fw bw
 
+/-! ### Known finding C11-F5, characterised: exactly the sets with an inverse member are affected -/
+
+/-- `NegatedPath.eval` computes the specified negated property set on every graph **iff** the set has no inverse
+    member: `!(p|…)` and `!()` are right on all graphs, every `!(…|^q|…)` is wrong on some graph. -/
+def Statement_neg_affected_iff : Prop :=
+  ∀ (fw bw : List Term), (∀ g : Graph, negRelImpl g fw bw = negRel g fw bw) ↔ bw = []
+
+theorem neg_affected_iff : Statement_neg_affected_iff := by
+  intro fw bw
+  constructor
+  · intro h
+    cases bw with
+    | nil => rfl
+    | cons b bs =>
+      have hw := negRelImpl_ne_of_inverse fw b bs
+      rw [h] at hw
+      exact absurd hw.1 hw.2
+  · rintro rfl g
+    exact negRelImpl_nil g fw
+
+/-- the same in terms of what is yielded: for a set with an inverse member there is a graph (one triple `0 q 1`
+    with a predicate `q` outside the set) on which `?s !(…) ?o` must answer `(1, 0)` and `NegatedPath.eval` does not -/
+theorem neg_affected_answer (fw : List Term) (b : Term) (bs : List Term) :
+    ∃ g : Graph, rel g (.neg fw (b :: bs)) 1 0 ∧ (1, 0) ∉ evalPath g (.neg fw (b :: bs)) none none := by
+  refine ⟨[(0, freshPred (fw ++ b :: bs), 1)], ?_, ?_⟩
+  · rw [rel]; exact (negRelImpl_ne_of_inverse fw b bs).1
+  · intro h
+    have := (path_computes _ _ _ _ _ _).mp h
+    rw [relC] at this
+    exact (negRelImpl_ne_of_inverse fw b bs).2 this.1
+
+example : evalPath [(0, freshPred [10, 11], 1)] (.neg [10] [11]) none none = [(0, 1)] := by decide
+
 /-! ### Non-vacuity: cyclic graph (2-cycle, self-loop, 3-cycle), nested closures, all bindings -/
 
 /-- 2-cycle 1⇄2 on p=10, self-loop on 3, 3-cycle 4→5→6→4 on q=11, edge 2 -q-> 4 -/
